@@ -228,6 +228,13 @@ theorem level_zero_before_first (t0 : Rat) (bts : List Rat) (t : Rat) (ht0 : t0 
     simp only [Option.getD_some] at hlo
     linarith
 
+/-- **The branch at time `t`**: for branching times given in non-decreasing order the depth of the
+    branch that owns a control entry at time `t >= t0` is the number of branching times that
+    have passed (`<= t`); the tree therefore splits exactly at the branching times. -/
+theorem branch_depth_at_time (t0 : Rat) (bts : List Rat) (hs : bts.Pairwise (· ≤ ·)) (t : Rat)
+    (ht : t0 ≤ t) : levelAt t0 bts t = some (bts.filter (fun b => decide (b ≤ t))).length :=
+  levelAt_sorted t0 bts hs t ht
+
 /-- **Indices stay in range, and the `int16` storage is a precondition** (finding F10): every
     entry is below the running count, so under `count <= 2^15` every stored value fits into
     `int16`; beyond that NumPy rejects the input with `OverflowError`. -/
